@@ -243,4 +243,20 @@ TARGETS = {
                           "contains": dict(params={"key": "Z"}, pure=True)}),
         ],
     ),
+    # DeadlineQueue: push / pop (drain expired entries) / is_empty / __len__; items are ids, _get_deadline(item) an arbitrary
+    # instant per call, _now() the clock reading (None when no clock function was given)
+    "DeadlineGen": dict(
+        out="Gen/DeadlineGen.v", tie="C08/DeadlineTie.v",
+        header="From HS Require Import Base.Prelude Base.PyLib.",
+        classes=[
+            dict(file="happysimulator/components/queue_policies/deadline_queue.py", cls="_DeadlineEntry", dataclass_order=True,
+                 fields={"deadline_ns": "Z", "insert_order": "Z", "item": "Z", "deadline": "I"}, methods={}),
+            dict(file="happysimulator/components/queue_policies/deadline_queue.py", cls="DeadlineQueue",
+                 fields={"_capacity": "cap", "_heap": "list _DeadlineEntry", "_insert_counter": "Z", "_enqueued": "Z",
+                         "_dequeued": "Z", "_expired": "Z", "_capacity_rejected": "Z"},
+                 heaps=["_heap"], oracles={"_get_deadline": "I", "_now": "opt I"}, oracle_fns=["_get_deadline"],
+                 methods={"push": dict(params={"item": "Z"}), "pop": dict(ret="opt Z"),
+                          "is_empty": dict(pure=True), "__len__": dict(pure=True)}),
+        ],
+    ),
 }
